@@ -735,7 +735,7 @@ def _is(a, b):
             return V.is_vnone(a.t)
         if isinstance(a, SOpt):
             return a.none
-        return False
+        return False  # any other value (numbers, objects, datetimes) is not None
     if a is None:
         return _is(b, a)
     if isinstance(a, SOpt):
